@@ -96,10 +96,14 @@ class C08(Harness):
             base, grid = Member(p=0, q=0), [{"p": [1], "q": [5]}, {"p": ps[1:]}]
             cand_p = ps
         else:
-            base, grid = Member(p=0), {"p": ps}
+            base, grid = Member(p=0), {"p": [1, 2, 3, 4, 5]}  # n_iter = nc of these five are drawn
             cand_p = None
         if kind == "randomized":
-            gs = tune.ForecastingRandomizedSearchCV(base, cv, grid, n_iter=nc, scoring=sc, refit=cell["refit"], random_state=3, strategy=cell.get("strategy", "refit"))
+            import numpy as _rnp
+
+            # an integer seed or a generator object (a generator is consumed: sampling the candidates twice differs)
+            rs = _rnp.random.RandomState(3) if inp.get("wrapped_scorer") else 3
+            gs = tune.ForecastingRandomizedSearchCV(base, cv, grid, n_iter=nc, scoring=sc, refit=cell["refit"], random_state=rs, strategy=cell.get("strategy", "refit"))
         else:
             gs = tune.ForecastingGridSearchCV(base, cv, grid, scoring=sc, refit=cell["refit"], strategy=cell.get("strategy", "refit"))
         fh = np.array([1])
@@ -120,7 +124,9 @@ class C08(Harness):
             out["pred1"] = [L(p1.index), L(p1.values)]
             out["cutoff1"] = S(gs.cutoff)
             if nb:
-                gs.update(yb)
+                up = not inp.get("wrapped_scorer")
+                gs.update(yb, update_params=up)
+                out["update_params"] = up
                 out["cutoff2"] = S(gs.cutoff)
                 p2 = gs.predict()
                 out["pred2"] = [L(p2.index), L(p2.values)]
@@ -149,7 +155,7 @@ class C08(Harness):
         key = {"plain": "p", "pipeline": "f__p", "multiplexer": "selected_forecaster", "randomized": "p", "listgrid": "p"}[kind]
         cands = out["params"]
         if kind == "randomized":
-            P.check("candidates-enumerated", len(cands) == nc and all(set(d) == {"p"} and d["p"] in range(1, nc + 1) for d in cands))
+            P.check("candidates-enumerated", len(cands) == nc and all(set(d) == {"p"} and d["p"] in range(1, 6) for d in cands) and len({d["p"] for d in cands}) == nc)
         elif kind == "multiplexer":
             P.check("candidates-enumerated", [d[key] for d in cands] == ["a", "b"][:nc])
         elif kind == "listgrid":
@@ -221,6 +227,7 @@ class C08(Harness):
                 P.eq("predict-equals-direct-forecaster", out["pred2"][1][0], ti(F(pb, c2, c2 + 1)))
                 ups = [e for e in out["postlog"] if e["op"] == "update"]
                 P.check("update-and-cutoff-delegate", len(ups) == 1 and ups[0]["who"] == pb)
+                P.check("update-and-cutoff-delegate", all(e.get("update_params") == out["update_params"] for e in ups), {"what": "update_params passed on", "want": out["update_params"]})
                 for e in ups[:1]:
                     for i, v in enumerate(e["vals"]):
                         P.eq("update-and-cutoff-delegate", v, tf(inp["u"][i]))
